@@ -539,11 +539,17 @@ def gen_duart(prefix, tier, seed, nq, nt, flavour):
                 if r.random() < 0.12:
                     # commands from a per-character handler: re-arm the receiver / transmitter, reset the error status
                     ops += ['wb:%x:%x' % (0x20000b + ch, r.choice([0x01, 0x05, 0x45, 0x04, 0x15, 0x02, 0x0a, 0x22, 0x08]))]
+                if r.random() < 0.06:
+                    # a transmitter / receiver reset followed by re-enabling: the programmed rate must survive it
+                    ops += ['wb:%x:%x' % (0x20000b + ch, r.choice([0x30, 0x20, 0x34, 0x21])), 'wb:%x:5' % (0x20000b + ch)]
                 mult = r.choice([1, 1, 1, 10, 100, 1000]) if gran < 100000 else 1
                 dg.adv(ops, gran * mult)
                 ops += ['gi', 'ds']
                 if r.random() < 0.1:
                     ops.append('rb:200013')
+                if r.random() < 0.15:
+                    # reads that acknowledge nothing: interrupt status, input port
+                    ops += [r.choice(['rb:200017', 'rb:200037']), 'gi']
         else:
             for _ in range(r.randrange(6, 60)):
                 dg.random_op(ops)
@@ -680,6 +686,32 @@ def gen_c09(tier, seed):
                         ops += ['rb:%x' % (0x200007 + ch), 'rb:%x' % (0x20000f + ch)]
                     ops += [pl, pl, pl, pl, 'ds']
                     g.add(ops, 'mode-x-receiver-state')
+    # local loop-back across a receiver reset: k characters looped back and j of them read (so the receive FIFO's
+    # pointers stand anywhere), reset + re-enable the receiver, then two more characters must come back, in order
+    for ch in (0, 0x20):
+        pl = 'pa' if ch == 0 else 'pb'
+        for k in range(0, 6):
+            for j in range(0, min(k, 4) + 1):
+                for rst in ([0x20, 0x01], [0x21], [0x02, 0x01], [0x20, 0x10, 0x01]):
+                    ops = ['wb:%x:10' % (0x20000b + ch), 'wb:%x:13' % (0x200003 + ch), 'wb:%x:87' % (0x200003 + ch), 'wb:%x:5' % (0x20000b + ch)]
+                    t = 0
+                    for i in range(k):
+                        ops += ['rb:%x' % (0x200007 + ch), 'wb:%x:%x' % (0x20000f + ch, 0x41 + i)]
+                        for _ in range(2):
+                            t += 1000000
+                            ops += ['t:%x' % t, 'sv']
+                    for i in range(j):
+                        ops += ['rb:%x' % (0x200007 + ch), 'rb:%x' % (0x20000f + ch)]
+                    ops += ['wb:%x:%x' % (0x20000b + ch, c) for c in rst]
+                    for i in range(2):
+                        ops += ['rb:%x' % (0x200007 + ch), 'wb:%x:%x' % (0x20000f + ch, 0x51 + i)]
+                        for _ in range(2):
+                            t += 1000000
+                            ops += ['t:%x' % t, 'sv']
+                    for i in range(4):
+                        ops += ['rb:%x' % (0x200007 + ch), 'rb:%x' % (0x20000f + ch)]
+                    ops += [pl, pl, 'ds']
+                    g.add(ops, 'loopback-after-receiver-reset')
     return g.result('Transmit-path histories on both channels: status-gated and ungated THR writes, service at and around the '
                     'character time, host polls, enable/disable/reset-transmitter and mode (loop-back) commands.')
 
@@ -704,6 +736,8 @@ def gen_c17(tier, seed):
             ops += ['run:%x' % (nsteps // 4), 'ds']
             if r.random() < 0.3:
                 ops += ['rb:200013', 'ds']
+            if r.random() < 0.4:
+                ops += [r.choice(['rb:200017', 'rb:200037']), 'ds']
         g.add(ops, 'c17-vblank-masked')
     return g.result('Pacing runs: every clock-select code (0-15) x both baud sets x both channels x both directions, time '
                     'advanced at granularities from 50 ns to 4 ms, snapshot after every service call.')
@@ -717,6 +751,29 @@ def gen_c14_plus(tier, seed):
     extra = [l for l in b['cases'] if l.split(' ', 1)[0].startswith('f')]
     sel = [('h' + l) for l in extra if 'gi' in l][:6000]
     a['cases'] = a['cases'] + sel
+    # the same truths while the processor runs with every interrupt masked (priority level 15, a sled of NOPs): characters
+    # that arrive and transmitters that become ready must still show in the interrupt status register on the next step
+    g = G('hm', seed + 11)
+    r = g.rnd
+    for i in range(40 if tier == 'quick' else 800):
+        ops = ['wb:20000b:%x' % r.choice([5, 1, 4, 5]), 'wb:20002b:%x' % r.choice([5, 1, 4, 5]),
+               'ld:700100:%s' % ('70' * 200), 'r:f:700100', 'r:b:%x' % ((15 << 13) | r.choice([0, 0x3c0000, 0x180])), 'r:c:730000',
+               'k:%x' % r.choice([1000, 100000, 1000000])]
+        for _ in range(r.randrange(2, 7)):
+            c = r.random()
+            if c < 0.4:
+                ops.append(r.choice(['qa', 'qb']) + ':%x' % r.choice([0x41, 0x80, 0xff, 0x02]))
+            elif c < 0.55:
+                ch = r.choice([0, 0x20])
+                ops += ['rb:%x' % (0x200007 + ch), 'wb:%x:%x' % (0x20000f + ch, r.choice([0x41, 0x5a]))]
+            elif c < 0.7:
+                ch = r.choice([0, 0x20])
+                ops += ['rb:%x' % (0x200007 + ch), 'rb:%x' % (0x20000f + ch)]
+            elif c < 0.8:
+                ops.append(r.choice(['md:1', 'mu:1', 'rb:200013']))
+            ops += ['run:%x' % r.choice([1, 2, 3, 8]), 'rb:200017', 'rb:200007', 'rb:200027', 'ds']
+        g.add(ops, 'c14-masked-processor')
+    a['cases'] = a['cases'] + g.result('x')['cases']
     a['rule'] += ' Plus the fill-level x command x refill scenarios of the receive path (with interrupt polls).'
     return a
 
@@ -733,6 +790,12 @@ def gen_c19(tier, seed):
     nseq = 150 if tier == 'quick' else 3000
     addrs = [0, 0x80, 0x1fffc, 0x20000, 0x200003, 0x200007, 0x20000f, 0x200013, 0x200037, 0x400000, 0x400002, 0x500000, 0x600000, 0x601fff,
              0x602000, 0x700000, 0x700101, 0x7ffffc, 0x800000, 0xfffffffc, 0xffffffff]
+    # reads at every alignment at the start, inside and at the end of every device, and in the holes between them
+    for base in (0, 0x1fffc, 0x20000, 0x200000, 0x20003c, 0x400000, 0x500000, 0x600000, 0x601ffc, 0x602000, 0x700000, 0x7ffffc, 0x800000):
+        ops = ['init:2']
+        for off in range(8):
+            ops += ['rdw:%x' % (base + off), 'rdb:%x' % (base + off)]
+        g.add(['C'] + ops, 'read-alignment')
     for i in range(nseq):
         # every list starts by loading a firmware image: Cpu::step panics by design on CPU errors other than bus faults
         # (an all-zero ROM is HALT), and a panic under the lock poisons the process-global machine for good
@@ -814,7 +877,7 @@ def gen_c19(tier, seed):
         for _ in range(200):
             k += 1
             st2 += ['t:%x' % ((k + 1) * 1000000), 'loop:3e8']
-        g.add(['T', '%x' % r.randrange(1 << 32), '2', ','.join(st2) + '/' + ','.join(['pb'] * 3000) + '/' + ','.join(['dirty'] * 3000) + '/!' + ','.join(['pa'] * 40 + ['dirty'])],
+        g.add(['T', '%x' % r.randrange(1 << 32), '2', ','.join(st2) + '/' + ','.join(['pb'] * 3000) + '/' + ','.join(['dirty'] * 3000) + '/!' + ','.join(['pa'] * 40 + ['dirty', 'dirty', 'dirty', 'vram', 'dirty', 'dirty'])],
               'boot-then-keys')
     # injected keys in bursts: several keyboard bytes queued back to back (as an input thread does), the receiver FIFO and
     # holding register fill before the firmware reads; each must come out exactly once, in order (end-to-end on the
